@@ -99,3 +99,15 @@ Theorem C03_ligero_few_agreements_any_tensor :
     forall J, NoDup J -> incl J idx -> (length J < n_cols)%nat.
 Proof. exact @ligero_few_agreements_g. Qed.
 Print Assumptions C03_ligero_few_agreements_any_tensor.
+
+(* Ligero shape: a verdict is only ever given on a proof whose vector has the row length, whose well-formedness vector
+   (when the parameters ask for it) is present with the row length, and which carries a column and a path for every
+   queried position *)
+Theorem C03_ligero_check_shape :
+  forall (FO : FieldOps) wf n_cols n_ext omega cext a b value pf r idx res,
+    l_check_g wf n_cols n_ext omega cext a b value pf r idx = Ok res ->
+    length (lf_v pf) = n_cols /\
+    (wf = true -> exists w, lf_wf pf = Some w /\ length w = n_cols) /\
+    (length idx <= length (lf_cols pf))%nat /\ (length idx <= length (lf_paths pf))%nat.
+Proof. exact @ligero_check_shape. Qed.
+Print Assumptions C03_ligero_check_shape.
